@@ -187,6 +187,11 @@ pub fn catalogue(tier: Tier) -> Vec<(String, Option<bool>, String)> {
             "include cycle of length 3".into(),
         ));
     }
+    // include cycles reached from a rule that is not itself on the cycle, in both file orders
+    for (a, bb) in [("S = > A ;\nA = > B ;\nB = > A ;", "tail into a cycle of length 2"), ("S = > A ;\nA = 'a' [ > A ] ;", "tail into a self-include"),
+        ("A = 'a' [ > A ] ;\nS = > A ;", "tail into a self-include, cycle first"), ("@export S = 'x' { > P } ;\nP = 'p' > Q ;\nQ = 'q' | > R ;\nR = > P ;", "tail into a cycle of length 3")] {
+        out.push((a.to_string(), Some(true), format!("include cycle: {bb}")));
+    }
     // multi-type @: under optional / closure / missing in an arm
     for body in [
         opt(choice(vec![over("X"), over("Y")])),
